@@ -281,6 +281,11 @@ func (h *H) Data() map[string]interface{} {
 	if c.HasOpt {
 		d["Opt"] = &OptObj{ID: c.Req.ID}
 	}
+	if c.OddKeys {
+		// keys the pool is documented to ignore: an empty name and a nil value
+		d[""] = int64(1)
+		d["NilVal"] = nil
+	}
 	if h.sc.NeedKf {
 		d["kf"] = h.K
 	}
@@ -328,8 +333,8 @@ func (h *H) Data() map[string]interface{} {
 			case SecElif:
 				needVC = true
 				d[fmt.Sprintf("VB%d", id)] = false
-			case SecUnb:
-				d[fmt.Sprintf("VT%d", id)] = fk == SecUnb
+			case SecUnb, SecUnbCont:
+				d[fmt.Sprintf("VT%d", id)] = fk == s.Kind
 			case SecRangeKey:
 				d[fmt.Sprintf("MM%d", id)] = map[int64]int64{int64(id) + 700: 1}
 			case SecThreeNil, SecIfThreeNil, SecThreeSet:
